@@ -118,7 +118,19 @@ def _steps(b, n):
         e2 = DatagramProtocolParseError(e)
         return (f"{e}", str(e2), f"x{ValueError(1, 2)}y", f"{OSError(2, 'nope')}", format(KeyError("k")), f"{ValueError()}|{n:>3}|{b[:1]!r}")
 
-    return [s1, s2, s3, s4, s5, s6, s7, s8, s9, s10, s11, s12, s13]
+    def s14():
+        import math
+
+        out = []
+        for f in (math.inf, -math.inf, 0.0, 2.0, 2.5, -0.5, 3.0):
+            out.append((n < f, n <= f, n > f, n >= f, n == f, n != f, f < n, f <= n, f > n, f >= n, f == n))
+            out.append((f - n) > 1)
+            out.append((n - f) < 0.0)
+            out.append((n + f) >= 3)
+            out.append(max(3 - n, 0.0) > 1)
+        return out
+
+    return [s1, s2, s3, s4, s5, s6, s7, s8, s9, s10, s11, s12, s13, s14]
 
 
 def battery(b: bytes, n: int):
